@@ -18,7 +18,19 @@ import (
 type Value interface{}
 
 type StructV struct{ F []Value }
-type ArrayV struct{ E []Value }
+type ArrayV struct {
+	E    []Value
+	Lazy func(i int) Value // materialises nil elements on first read (large arbitrary buffers)
+}
+
+func (a *ArrayV) get(i int) Value {
+	v := a.E[i]
+	if v == nil && a.Lazy != nil {
+		v = a.Lazy(i)
+		a.E[i] = v
+	}
+	return v
+}
 type TupleV []Value
 
 type FloatV struct{ F float64 }
@@ -214,7 +226,7 @@ func copyValue(v Value) Value {
 		}
 		return n
 	case *ArrayV:
-		n := &ArrayV{E: make([]Value, len(x.E))}
+		n := &ArrayV{E: make([]Value, len(x.E)), Lazy: x.Lazy}
 		for i, f := range x.E {
 			n.E[i] = copyValue(f)
 		}
@@ -259,7 +271,7 @@ func (st *State) cellRef(p Ptr) (get func() Value, set func(Value)) {
 		if last < 0 || last >= len(c.E) {
 			panic(st.violation(fmt.Sprintf("index %d out of range [0,%d) in pointer path", last, len(c.E)), nil))
 		}
-		return func() Value { return c.E[last] }, func(v Value) { c.E[last] = v }
+		return func() Value { return c.get(last) }, func(v Value) { c.E[last] = v }
 	}
 	panic(fmt.Sprintf("cellRef: bad container %T for path %v", cur, p.Path))
 }
@@ -269,7 +281,7 @@ func childOf(v Value, i int) Value {
 	case *StructV:
 		return c.F[i]
 	case *ArrayV:
-		return c.E[i]
+		return c.get(i)
 	}
 	panic(fmt.Sprintf("childOf: bad container %T", v))
 }
@@ -316,19 +328,40 @@ func (st *State) store(p Ptr, v Value) {
 	set(copyValue(v))
 }
 
+// idxBound returns an exclusive upper bound (<= n) for a symbolic index, asking
+// the solver only for large arrays.
+func (st *State) idxBound(idx *Term, n int) int {
+	if idx.RHi < uint64(n) {
+		return int(idx.RHi) + 1
+	}
+	if n <= 64 {
+		return n
+	}
+	for _, c := range []int{16, 64, 256, 1024, 4096, 16384} {
+		if c >= n {
+			break
+		}
+		r, _ := st.w.solver.Check(st.pc, st.tt.Cmp(OpULe, st.tt.Const(uint64(c), idx.W), idx), false, "feas")
+		if r == Unsat {
+			return c
+		}
+	}
+	return n
+}
+
 // symRead builds an ite-chain over the elements; the index is already bounds-checked.
 func (st *State) symRead(arr *ArrayV, idx *Term) Value {
 	if idx.IsConst() {
-		return copyValue(arr.E[idx.Val])
+		return copyValue(arr.get(int(idx.Val)))
 	}
-	n := len(arr.E)
+	n := st.idxBound(idx, len(arr.E))
 	if n == 0 {
 		panic(st.violation("index into empty array", nil))
 	}
-	res := arr.E[n-1]
+	res := arr.get(n - 1)
 	for i := n - 2; i >= 0; i-- {
 		c := st.tt.Eq(idx, st.tt.Const(uint64(i), idx.W))
-		res = st.merge(c, arr.E[i], res)
+		res = st.merge(c, arr.get(i), res)
 	}
 	return copyValue(res)
 }
@@ -338,9 +371,10 @@ func (st *State) symWrite(arr *ArrayV, idx *Term, v Value) {
 		arr.E[idx.Val] = copyValue(v)
 		return
 	}
-	for i := range arr.E {
+	n := st.idxBound(idx, len(arr.E))
+	for i := 0; i < n; i++ {
 		c := st.tt.Eq(idx, st.tt.Const(uint64(i), idx.W))
-		arr.E[i] = st.merge(c, v, arr.E[i])
+		arr.E[i] = st.merge(c, v, arr.get(i))
 	}
 }
 
@@ -366,7 +400,7 @@ func (st *State) merge(c *Term, a, b Value) Value {
 		y := b.(*ArrayV)
 		n := &ArrayV{E: make([]Value, len(x.E))}
 		for i := range x.E {
-			n.E[i] = st.merge(c, x.E[i], y.E[i])
+			n.E[i] = st.merge(c, x.get(i), y.get(i))
 		}
 		return n
 	case Ptr:
@@ -451,7 +485,7 @@ func (st *State) concreteString(s StrV) (string, bool) {
 	arr := st.arrayAt(s.Arr)
 	b := make([]byte, s.Len.Val)
 	for i := range b {
-		t := arr.E[int(s.Off.Val)+i].(*Term)
+		t := arr.get(int(s.Off.Val)+i).(*Term)
 		if !t.IsConst() {
 			return "", false
 		}
